@@ -20,8 +20,24 @@ var profC17 = Profile{
 	Fillers: []string{"bar", "tag"}, LateAdd: true, Epilogues: []string{"complete", "mixed"}, SyncDecors: 1, PlainDecors: 1, Wraps: true, AddTick: 25,
 }
 
+// profC17Conc: several clients; one of them creates the bars (successors
+// included) while the others finish predecessors and request frames.
+var profC17Conc = ConcProfile{
+	Profile: Profile{
+		MaxBars: 7, MinBars: 2, Refresh: []string{"autort", "autoinj", "autoinj"}, QLens: []int{-1, -1, 0, 1},
+		Pop: 25, Queue: 65, Prio: true, Rm: 30, NoPop: 15, AbortW: 3,
+		SyncDecors: 1, PlainDecors: 1, Wraps: true, Fillers: []string{"bar", "tag"},
+	},
+	MaxBlocks: 3, MaxBlockOps: 12, Pars: 2, PerturbMax: 2, HoldPct: 30, SyncPct: 40,
+}
+
 func genC17(t *rapid.T) interface{} {
 	excludedKnown = 0
+	if rapid.IntRange(0, 3).Draw(t, "concurrent") == 0 {
+		sc := genConcurrent(t, &profC17Conc)
+		vstat.Excluded(excludedKnown)
+		return sc
+	}
 	sc := genScenario(t, &profC17)
 	if sc.Cfg.Refresh == "manual" {
 		excludedKnown += int64(repairQueue(sc))
@@ -79,6 +95,9 @@ func runC17(ci interface{}) Result {
 		return r
 	}
 	frames := tr.Frames()
+	if hasPar(sc) {
+		return runC17Conc(sc, tr, r)
+	}
 	sim := engine.Simulate(sc)
 	// sequence number at the end of each bar's add step
 	addSeq := map[int]int64{}
@@ -336,4 +355,65 @@ func containsInt(xs []int, x int) bool {
 		}
 	}
 	return false
+}
+
+// runC17Conc judges a concurrent history by invariants only: creation,
+// completion and frames race, so which successors come in time and which come
+// late is not known; what holds either way is that a successor is never shown
+// with or before its predecessor (unless the predecessor was popped out before
+// the successor came, whose rows then persist), and that in a container that
+// refreshes by itself every successor is displayed before Wait returns.
+func runC17Conc(sc *engine.Scenario, tr *engine.Trace, r Result) Result {
+	r.Classes = append(r.Classes, "concurrent")
+	frames := tr.Frames()
+	rowsAll := 0
+	for i, b := range sc.Bars {
+		if tr.Added[i] {
+			rowsAll += 1 + b.ExtRows
+		}
+	}
+	limit := sc.Cfg.Width
+	if limit <= 0 {
+		limit = 80
+	}
+	multi := map[int]int{}
+	for s, b := range sc.Bars {
+		p := b.QueueAfter
+		if p < 0 || !tr.Added[s] || !tr.Added[p] {
+			continue
+		}
+		multi[p]++
+		mayBePopped := sc.Cfg.Pop && !sc.Bars[p].NoPop
+		firstS, lastP := -1, -1
+		for k := range frames {
+			f := &frames[k]
+			hp, hs := f.Count(p) > 0, f.Count(s) > 0
+			if hp && hs && !mayBePopped {
+				r.Err, r.Kind = fmt.Errorf("frame %d shows bar %d together with its predecessor %d: %q", k, s, p, f.Raw), "together"
+				return r
+			}
+			if hp {
+				lastP = k
+			}
+			if hs && firstS < 0 {
+				firstS = k
+			}
+		}
+		if firstS >= 0 && lastP >= 0 && firstS < lastP && !mayBePopped {
+			r.Err, r.Kind = fmt.Errorf("bar %d is displayed (frame %d) before its predecessor %d was last displayed (frame %d)", s, firstS, p, lastP), "early"
+			return r
+		}
+		if firstS < 0 && tr.CancelSeq == 0 && tr.WaitSeq != 0 && tr.PtyStream == nil && rowsAll <= limit && sc.Cfg.Refresh != "manual" && sc.Cfg.Refresh != "none" && !sc.Cfg.Delay && tr.OutputErrs == 0 {
+			r.Err, r.Kind = fmt.Errorf("bar %d queued after bar %d was never displayed in any of the %d frames although the container refreshes by itself and Wait returned after every bar had finished", s, p, len(frames)), "never-displayed"
+			return r
+		}
+	}
+	for _, n := range multi {
+		if n >= 2 {
+			r.Classes = append(r.Classes, "concurrent-multi-successor")
+			break
+		}
+	}
+	r.Nontrivial = len(multi) > 0
+	return r
 }
